@@ -24,7 +24,9 @@ Record case := {
   c_ops : list op
 }.
 
-Definition fuel0 : nat := 64.
+(* the ROR2 cursor model bounds the number of members it reads from one object by its remaining fuel: large enough for the
+   widest record of the family (Wide: 73 fields, plus injected unknown members) at the nesting depths generated *)
+Definition fuel0 : nat := 160.
 
 Fixpoint lookup_float (tbl : list (bool * N * bytes)) (is32 : bool) (bits : N) : bytes :=
   match tbl with
